@@ -110,6 +110,17 @@ func (c01) Cases(tier string, emit func(string, interface{})) {
 		emit("S3", filesCase{Root: "r.sysl", Files: map[string]string{"r.sysl": "import x\n" + body, "x.sysl": "import r\n" + body}})
 		emit("S3", filesCase{Root: "r.sysl", Files: map[string]string{"r.sysl": "import x\nimport y\nA:\n    Ep:\n        ...\n", "x.sysl": "import y\n" + body, "y.sysl": "import x\n" + body}})
 	}
+	// S3c: one file imported twice under every pair of import forms (plain, two different aliases, a
+	// namespaced alias, a mode tag), as a leaf, with an import of its own, and reached through a sibling
+	forms := []string{"import x", "import x as A", "import x as B", "import x as Ns :: A", "import x.sysl", "import ./x", "import x ~sysl"}
+	xbody := "X:\n    Ep:\n        ...\n"
+	for _, f1 := range forms {
+		for _, f2 := range forms {
+			emit("S3c", filesCase{Root: "r.sysl", Files: map[string]string{"r.sysl": f1 + "\n" + f2 + "\nR:\n    ...\n", "x.sysl": xbody}})
+			emit("S3c", filesCase{Root: "r.sysl", Files: map[string]string{"r.sysl": f1 + "\n" + f2 + "\nimport z\nR:\n    ...\n", "x.sysl": "import d\n" + xbody, "d.sysl": "import e\nD:\n    ...\n", "e.sysl": "E:\n    ...\n", "z.sysl": "import e\nZ:\n    ...\n"}})
+			emit("S3c", filesCase{Root: "r.sysl", Files: map[string]string{"r.sysl": f1 + "\nimport y\nR:\n    ...\n", "y.sysl": f2 + "\nimport d\nY:\n    ...\n", "x.sysl": "import d\n" + xbody, "d.sysl": "D:\n    ...\n"}})
+		}
+	}
 	// CLI: one representative per construct family and per crash class seen in the library runs
 	for _, s := range append(append([]string{}, gen.Seeds...), gen.CrashRepros...) {
 		one("CLI", s)
